@@ -10,7 +10,7 @@
 From Coq Require Import List ZArith QArith Qcanon Floats Permutation.
 From TK Require Import Mat_Sums Mat_Qc Knn_Spec Tsne_Model Tsne_Vp_Model Tsne_Sym_Model Tsne_Spec
   Tsne_Proof_Dense Tsne_Proof_KL Tsne_Proof_Perp Tsne_Proof_K Tsne_Proof_Vp Tsne_Proof_Sym Tsne_Proof_Sym2 Tsne_Proof_SymSpec Tsne_Proof_Csr Tsne_BH_Model Tsne_Proof_BH
-  Tsne_PerpRed_Model Tsne_Proof_PerpRed Tsne_Proof_Converge Tsne_Race_Model Tsne_Proof_Race.
+  Tsne_PerpRed_Model Tsne_Proof_PerpRed Tsne_Proof_Converge Tsne_Race_Model Tsne_Proof_Race Tsne_Run_Model Tsne_Proof_Run.
 From TK Require QuadTree_Model QuadTree_Spec QuadTree_SpecExec QuadTree_Proof_Gradient QuadTree_Proof_Final.
 Import ListNotations.
 
@@ -420,6 +420,15 @@ Theorem sparse_spec_decision_complete : forall N (p s : csr Q),
 Proof. exact sym_spec_b_complete. Qed.
 Print Assumptions sparse_spec_decision_complete.
 
+(* run(), Barnes-Hut branch, after symmetrizeMatrix: sum_P += val_P[i]; val_P[i] /= sum_P — the stored joint
+   similarities sum to one (wave 2; with sparse_symmetrise they are the entries of (P + P^T)/2, each divided by the total) *)
+Theorem sparse_joint_sums_to_one : forall vals,
+  ~ (sparse_total vals == 0)%Q -> (sparse_total (sparse_normalise vals) == 1)%Q.
+Proof. exact sparse_normalise_sums_to_one_thm. Qed.
+Print Assumptions sparse_joint_sums_to_one.
+Example sparse_joint_sums_to_one_nonvacuous : ~ (sparse_total [1 # 4; 1 # 4; 1 # 2] == 0)%Q.
+Proof. exact sparse_normalise_nonvacuous. Qed.
+
 (* ---------------------------------------------------------------- Barnes-Hut gradient *)
 
 (* computeGradient (model on top of agent c18's quadtree model): for every map without coincident
@@ -448,6 +457,29 @@ Example bh_gradient_limit_nonvacuous :
                (QuadTree_Model.init QuadTree_Proof_Final.ex_root) = QuadTree_Model.Done true t) /\
   ~ (QuadTree_Proof_Gradient.total_sq QuadTree_Proof_Final.ex_data2 (seq 0 (length ex_rows)) (seq 0 (length ex_rows)) == 0)%Q.
 Proof. exact bh_gradient_limit_nonvacuous_ex. Qed.
+
+(* the same for exactly the tree the check executes through extraction (GM stream): QuadTree(Y, N) = tsne_tree,
+   root box computed from the data (mean +/- largest deviation + slack), then fill(N) *)
+Theorem bh_gradient_limit_tsne_tree : forall slack fuel data ok t (rows : list (list (nat * Q))),
+  let N := length rows in
+  (0 <= slack)%Q -> (N <= length data)%nat -> QuadTree_Spec.NoCo data (seq 0 N) ->
+  QuadTree_SpecExec.tsne_tree slack fuel data N = Some (QuadTree_Model.Done ok t) ->
+  ~ (QuadTree_Proof_Gradient.total_sq data (seq 0 N) (seq 0 N) == 0)%Q ->
+  exists theta0, (0 < theta0)%Q /\
+    forall theta, (0 <= theta)%Q -> (theta < theta0)%Q ->
+      exists g, bh_gradient data rows theta t = Some g /\
+                rows_eq g (closed_rows 0 data (seq 0 N) rows
+                                       (QuadTree_Proof_Gradient.total_sq data (seq 0 N) (seq 0 N))).
+Proof. exact bh_gradient_limit_tsne_tree_thm. Qed.
+Print Assumptions bh_gradient_limit_tsne_tree.
+
+Example bh_gradient_limit_tsne_tree_nonvacuous :
+  (0 <= (1 # 100000))%Q /\ (length ex_rows <= length QuadTree_Proof_Final.ex_data2)%nat /\
+  QuadTree_Spec.NoCo QuadTree_Proof_Final.ex_data2 (seq 0 (length ex_rows)) /\
+  (exists ok t, QuadTree_SpecExec.tsne_tree (1 # 100000) 12 QuadTree_Proof_Final.ex_data2 (length ex_rows)
+                = Some (QuadTree_Model.Done ok t)) /\
+  ~ (QuadTree_Proof_Gradient.total_sq QuadTree_Proof_Final.ex_data2 (seq 0 (length ex_rows)) (seq 0 (length ex_rows)) == 0)%Q.
+Proof. exact bh_gradient_limit_tsne_tree_nonvacuous_ex. Qed.
 
 (* ---------------------------------------------------------------- the quadtree's scratch buffer (wave 2)
    c18's model computes a node's contribution from the point directly; the C++ goes through the node's MEMBER
